@@ -392,6 +392,9 @@ func partCScripts(tier string) (scripts []bScript, layouts int) {
 					}
 					for _, f := range []string{"link", "ods-write", "q4-write"} {
 						for _, r := range []string{"rm-ods", "rm-q4", "rm-link"} {
+							if tier != "thorough" && !reps[name] && !(r == "rm-ods" && f != "q4-write") {
+								continue // quick: all nine pairs on the representative squares only
+							}
 							add("fault:"+f, "fault:"+r, "avail:1", "get:eds?", "avail:1", "get:eds?")
 						}
 					}
